@@ -83,6 +83,12 @@ Definition enc_sp (k : tkind) (s : string) : data := DStr (spell k s).
 
 Definition enc_M (r : res (list tok)) : data :=
   match r with
+  | Ok l => DList [DStr "Ok"; DList (map (fun t => enc_sp (tk t) (tt t)) l)]
+  | Err e => DList [DStr "Err"; DStr e]
+  end.
+(* the same with the prev_white flags, for the correspondence run *)
+Definition enc_Mw (r : res (list tok)) : data :=
+  match r with
   | Ok l => DList [DStr "Ok"; DList (map (fun t => enc_sp (tk t) (tt t)) l); DList (map (fun t => of_bool (tw t)) l)]
   | Err e => DList [DStr "Err"; DStr e]
   end.
@@ -97,6 +103,11 @@ Definition run_M_case (cs : list cmacro) (input : list tok) : data :=
   | inr (i, e) => DList [DStr "DefErr"; of_nat i; DStr e]
   | inl tb => enc_M (expand_cur tb input)
   end.
+Definition run_Mw_case (cs : list cmacro) (input : list tok) : data :=
+  match build_table 0 (map (fun c => (c_via c, c_mtoks c)) cs) [] with
+  | inr (i, e) => DList [DStr "DefErr"; of_nat i; DStr e]
+  | inl tb => enc_Mw (expand_cur tb input)
+  end.
 Definition run_S_case (cs : list cmacro) (input : list tok) : data :=
   enc_S (run_spec fuel_S (stable_of cs) (map btok_of input)).
 
@@ -104,7 +115,7 @@ Definition run_C03 (d : data) : data :=
   match d with
   | DList [ms; inp] =>
       match as_list_of dec_macro ms, as_list_of dec_tok inp with
-      | Some cs, Some input => DList [run_M_case cs input; run_S_case cs input]
+      | Some cs, Some input => DList [run_Mw_case cs input; run_S_case cs input]
       | _, _ => bad_case
       end
   | _ => bad_case
